@@ -318,7 +318,109 @@ def queue_job(item, tier):
                          "max_depth": maxd}]}
 
 
+FULL_EVENTS = [
+    ("TASK_FINISHED", "A"), ("TASK_RELEASE", "B"), ("TASK_FINISHED", "B"),
+    ("SCHEDULER_START", None), ("TASK_PLACEMENT", "A"), ("TASK_RELEASE", "A"),
+    ("SCHEDULER_START", None),
+]
+
+
+def full_queue_job(item, tier):
+    """Populated queues (the BFS above needs 7+ operations to get there): 7 pending
+    events, *every* vector of times in {0..3}^7 with the first two fixed by the work
+    item (different vectors give different heap layouts), then every single removal
+    and every single in-place re-timing (thorough: every ordered pair of them), then a
+    full drain: pops must come out in non-decreasing (time, type priority) order and be
+    exactly the events that were pending."""
+    from .. import bootstrap  # noqa: F401
+    import simulator as S
+    from utils import EventTime
+    from workload import Job, Task, Placement
+
+    _k, t0, t1 = item[:3]
+    pairs = tier == "thorough"
+    US, MS = EventTime.Unit.US, EventTime.Unit.MS
+    jobs = {"A": Job(name="A"), "B": Job(name="B")}
+    tasks = {k: Task(name=k, task_graph="G", job=jobs[k], deadline=EventTime(10, US))
+             for k in jobs}
+    out = []
+    n_ev = len(FULL_EVENTS)
+
+    def mk(i, t):
+        et, tn = FULL_EVENTS[i]
+        kw = {}
+        if tn is not None:
+            kw["task"] = tasks[tn]
+        if et == "TASK_PLACEMENT":
+            kw["placement"] = Placement.create_task_placement(task=tasks[tn])
+        # mixed units: odd events carry their time in ms (t ms = 1000 t us) -- the
+        # order must follow the microsecond value, not the raw number
+        tm = EventTime(t, MS) if i % 2 else EventTime(t * 1000, US)
+        return S.Event(event_type=getattr(S.EventType, et), time=tm, **kw)
+
+    def key_of(e):
+        return (e.time.time * int(e.time.unit.value), e.event_type.value)
+
+    single = [("remove", i) for i in range(n_ev)] + \
+             [("retime", i, t) for i in range(n_ev) for t in (0, 2, 3)]
+    scripts = [()] + [(o,) for o in single]
+    if pairs:
+        scripts += [(a, b) for a in single for b in single
+                    if not (a[0] == "remove" and b[1] == a[1])]
+    n = 0
+    layouts = set()
+    stats = {"full_queue_scenarios": 0, "full_queue_pops": 0,
+             "full_queue_removals_below_the_root": 0}
+    for rest in itertools.product(range(4), repeat=n_ev - 2):
+        times = (t0, t1) + rest
+        for script in scripts:
+            q = S.EventQueue()
+            evs = [mk(i, times[i]) for i in range(n_ev)]
+            for e in evs:
+                q.add_event(e)
+            present = dict(enumerate(evs))
+            if not script:
+                layouts.add(tuple((i, times[i]) for i in
+                                  (next(k for k, x in enumerate(evs) if x is e)
+                                   for e in q._event_queue)))
+            for op in script:
+                if op[0] == "remove":
+                    if q._event_queue.index(present[op[1]]) > 0:
+                        stats["full_queue_removals_below_the_root"] += 1
+                    q.remove_event(present.pop(op[1]))
+                else:
+                    e = present[op[1]]
+                    e._time = EventTime(op[2], MS) if op[1] % 2 \
+                        else EventTime(op[2] * 1000, US)
+                    q.reheapify()
+            want = sorted(key_of(e) for e in present.values())
+            got = []
+            ids = set()
+            while len(q) > 0:
+                e = q.next()
+                got.append(key_of(e))
+                ids.add(id(e))
+            stats["full_queue_pops"] += len(got)
+            n += 1
+            if got != want or ids != set(id(e) for e in present.values()):
+                if len(out) < 10:
+                    out.append({
+                        "rule": "queue.drain_order",
+                        "msg": f"7 pending events with times {list(times)} (odd ones in "
+                               f"ms), then {list(script)}: popped keys {got}, expected "
+                               f"{want}",
+                        "case": {"full_queue": [t0, t1]}})
+    stats["full_queue_scenarios"] = n
+    return {"states": len(layouts), "transitions": n, "validated": n, "evaluations": n,
+            "stats": stats, "violations": out,
+            "distinct": [hash(l) for l in layouts],
+            "samples": [{"full_queue_first_times": [t0, t1], "heap_layouts": len(layouts),
+                         "scenarios": n}] if (t0, t1) == (1, 2) else []}
+
+
 def job(item, tier):
+    if item[0] == "full_queue":
+        return full_queue_job(item, tier)
     if item[0] in ("pairs", "triples"):
         return time_job(item, tier)
     if item[0] == "queue":
@@ -331,6 +433,9 @@ def case_job(case, tier):
     """Replay of one recorded case."""
     from .. import bootstrap  # noqa: F401
 
+    if "full_queue" in case:
+        return {"violations": full_queue_job(("full_queue",) + tuple(case["full_queue"]),
+                                             tier)["violations"]}
     if "queue_history" in case:
         # re-run the BFS to the length of the history; cheap
         r = queue_job(("queue", len(case["queue_history"])), tier)
@@ -350,6 +455,9 @@ def items(tier):
     for lo in range(0, n, step):
         it.append((kind, lo, min(n, lo + step)))
     it.append(("queue", 6 if tier == "quick" else 8))
+    for t0 in range(4):
+        for t1 in range(4):
+            it.append(("full_queue", t0, t1))
     return it
 
 
@@ -363,13 +471,18 @@ def main(tier, seed):
         rule="all pairs (and triples on a reduced third axis) of boundary values "
              "{0,+-1,+-999,+-1000,+-1001,+-(1e6+-1),+-(2^53-1)/unit} x {us,ms,s}; "
              "event queue: BFS over all add/remove/re-time+reheapify/next sequences on "
-             "6 event templates to the stated depth, de-duplicated on the heap array",
+             "6 event templates to the stated depth, de-duplicated on the heap array; "
+             "populated queues: 7 pending events x every time vector in {0..3}^7 (mixed "
+             "us/ms) x every single removal / in-place re-timing (thorough: every "
+             "ordered pair) followed by a full drain",
         assumptions=["magnitudes below 2^53 us as stated by the property",
                      "for equal (time, type) events without tasks any order is "
                      "accepted (the ordering key documents none)"],
-        required_stats=("time_cases", "queue_pops_checked", "queue_tie_pops"), chunk=1,
+        required_stats=("time_cases", "queue_pops_checked", "queue_tie_pops",
+                        "full_queue_scenarios", "full_queue_removals_below_the_root"),
+        chunk=1,
         budget_s=240 if tier == "quick" else 2400, confirm_job=confirm_job)
 
 
 def replay(path):
-    return generic_replay("C16", path, confirm_job, extra=("quick",))
+    return generic_replay("C16", path, confirm_job, extra=("quick",), item_job=job)
